@@ -75,6 +75,9 @@ type Node struct {
 	FailEOF bool
 	// interrupts
 	RerunN int // number of attempts that answer InterruptAndRerun
+	// Interim: the node's output carries a progress counter "z:<key>" whose final value is 0; in
+	// stream form the node first emits an interim value of it (integers concatenate last-wins)
+	Interim bool
 	// Detach: the body does some inner work under a callback context of its own without
 	// handlers (callbacks.InitCallbacks(ctx, info)): no handler of the run may see it
 	Detach bool
@@ -826,6 +829,9 @@ func (p *Plan) Render() string {
 		}
 		if n.AnyOut {
 			sb.WriteString(" :any")
+		}
+		if n.Interim {
+			sb.WriteString(" z")
 		}
 		if n.Pre != 0 {
 			fmt.Fprintf(&sb, " pre%d", n.Pre)
